@@ -82,4 +82,33 @@ theorem c13_conn_close_all (s : ConnState) :
 example : (connClose { chans := [(0, false), (2, false), (3, false)] }).chans = [(0, true), (2, true), (3, true)] := by
   decide
 
+/-! ### Close of a logical channel whose teardown packet cannot be written -/
+
+/-- what `Channel.Close` of a logical channel leaves behind -/
+structure CloseOutcome where
+  reported : Bool       -- Close returned an error
+  closed : Bool         -- the channel answers ErrChannelClosed from now on
+  registered : Bool     -- the id is still in the connection's table (packets for it are still routed)
+deriving Repr, DecidableEq
+
+/-- `Channel.Close` (logical channel) as the regenerated fact describes it: the teardown packet is written
+— the transport may refuse it — and unless that error ends the call the client-side teardown follows -/
+def closeLogical (tearsDownAfterError writeOk : Bool) : CloseOutcome :=
+  if writeOk then ⟨false, true, false⟩
+  else if tearsDownAfterError then ⟨true, true, false⟩
+  else ⟨true, false, true⟩
+
+/-- **a refused teardown packet does not keep the channel alive**: whether or not the transport takes the
+teardown packet, after `Close` the channel is closed and its id is no longer routed; the refusal is
+reported. (Tied to the code by the regenerated fact `closeTearsDownAfterWriteError` and by the
+`mux closefail` lines of the C12 harness.) -/
+theorem c13_close_after_refused_teardown (writeOk : Bool) :
+    (closeLogical Gen.Shape.closeTearsDownAfterWriteError writeOk).closed = true ∧
+    (closeLogical Gen.Shape.closeTearsDownAfterWriteError writeOk).registered = false ∧
+    ((closeLogical Gen.Shape.closeTearsDownAfterWriteError writeOk).reported = !writeOk) := by
+  cases writeOk <;> simp [closeLogical, Gen.Shape.closeTearsDownAfterWriteError]
+
+/-- the statement is about the fact: without it a refused teardown leaves the channel open and routed -/
+example : (closeLogical false false).closed = false ∧ (closeLogical false false).registered = true := by decide
+
 end Dblib.Props.C13
